@@ -515,6 +515,33 @@ func (e *Exec) libPattern(fn *ssa.Function, name string, args []Value) (Value, b
 	if strings.HasPrefix(name, "(github.com/cometbft/cometbft/libs/log.") {
 		return nil, true
 	}
+	for _, pfx := range []string{"math/rand.", "(*math/rand.", "crypto/rand.", "github.com/google/uuid.", "github.com/pborman/uuid.", "os.Getenv", "os.Hostname", "os.Getpid", "runtime.NumCPU", "runtime.GOMAXPROCS"} {
+		if strings.HasPrefix(name, pfx) {
+			e.Notes["nondeterministic environment call "+name+": fresh value per call (non-determinism hazard)"] = true
+			e.path.events = append(e.path.events, "nondeterminism:"+name)
+			res := fn.Signature.Results()
+			mk := func(t types.Type) Value {
+				if w, _, ok := intWidth(t); ok {
+					return e.freshEnv("env", smt.BV(w))
+				}
+				if isString(t) {
+					return e.opaqueString("env")
+				}
+				return e.zero(t)
+			}
+			switch res.Len() {
+			case 0:
+				return nil, true
+			case 1:
+				return mk(res.At(0).Type()), true
+			}
+			t := make(Tuple, res.Len())
+			for i := range t {
+				t[i] = mk(res.At(i).Type())
+			}
+			return t, true
+		}
+	}
 	return nil, false
 }
 
